@@ -72,7 +72,7 @@ func runOptPresence(rc *RuleCtx) {
 						good := false
 						for _, o := range conj {
 							if be, ok := o.(*ast.BinaryExpr); ok && be.Op == token.NEQ {
-								if types.ExprString(be.X) == want && types.ExprString(be.Y) == "nil" {
+								if (types.ExprString(be.X) == want && types.ExprString(be.Y) == "nil") || (types.ExprString(be.Y) == want && types.ExprString(be.X) == "nil") {
 									good = true
 								}
 							}
